@@ -27,7 +27,7 @@ def run(ctx):
     R = "R-ORDER"
     enc = F.fn("Content::encode")
     bodies = F.with_closures(enc)
-    wo = [(b, c) for b in bodies for c in b.calls if c.local and c.name.endswith("Writer::write_object")]
+    wo = [(b, c) for b in bodies for c in b.calls if c.local and c.cname.endswith("Writer::write_object")]
     sp = [(b, c) for b in bodies for c in lib.calls_named(b, r"io::Write::write_all$") if lib._const_bytes_through(b, c.args[1]) in (b" ", b"\n")]
     ops = [(b, c) for b in bodies for c in lib.calls_named(b, r"io::Write::write_all$") if "operator" in b.oname(c.args[1], 4)]
     ctx.floor(R, "write_object calls in Content::encode", len(wo), 1)
